@@ -237,10 +237,26 @@ def shard(args):
     return agg
 
 
+def named_args_shard(args):
+    """Every argument bound by name (reversed order, and positional-then-named) must give what the positional call gives:
+    documented parameter names, driver/stdparams.py."""
+    import stdparams
+    from tablecheck import run_cases as _run_cases
+    agg = Agg()
+    ev = Ev(agg)
+    try:
+        _run_cases(agg, ev, stdparams.named_cases(['substr', 'findSubstr', 'startsWith', 'endsWith', 'split', 'splitLimit', 'splitLimitR', 'strReplace', 'stripChars', 'lstripChars', 'rstripChars', 'join', 'repeat', 'slice', 'member', 'count', 'map', 'flatMap', 'format']))
+    finally:
+        ev.close()
+    return agg
+
+
 def run(tier, seed):
     t0 = time.time()
     quick = tier != "thorough"
     total = Agg()
+    for a in common.pmap(named_args_shard, [(seed,)]):
+        total.merge(a)
     n = 40_000 if quick else 3_000_000
     for a in common.pmap(shard, [(seed * 211 + i, n // 64) for i in range(64)]):
         total.merge(a)
@@ -249,6 +265,6 @@ def run(tier, seed):
             "substrings/overlaps of each other, empty) x index/len/limit arguments incl. negative, fractional, 2^53, "
             "1e300; oracle = Python str operations (code-point based) for ~60 function families and identities "
             "(join(split) == s, findSubstr = all overlapping positions, maximal strip, first/last n separators). "
-            "distinct_nontrivial = distinct (family, source) pairs whose result was compared.")
+            "documented parameter names: every argument bound by name (reversed order, and positional-then-named) gives what the positional call gives (driver/stdparams.py). distinct_nontrivial = distinct (family, source) pairs whose result was compared.")
     return common.finish(PROP, tier, seed, total, rule, t0,
                          assumptions=["Python str is a code point sequence; std.trim strips ' \\t\\n\\f\\r\\u0085\\u00a0' (upstream definition)"])
